@@ -1,14 +1,194 @@
 import PGM.Proofs.Semantics
+import PGM.Proofs.BPRefine
 /-! correctness of `belief_propagation` on junction trees -/
 namespace PGM.Sem
 open PGM PGM.JT PGM.GM
 variable {K : Type} [Field K] [LinearOrder K] [IsStrictOrderedRing K]
+set_option linter.unusedSectionVars false
+set_option linter.unusedVariables false
+
+/-! ### from `ModelOK` to the hypotheses of the refinement -/
+
+theorem getD_nonneg (a : Array (LogOf K)) (h : ∀ x ∈ a.toList, 0 ≤ x.v) (n : Nat) :
+    0 ≤ (a.getD n default).v := by
+  rw [Array.getD_eq_getD_getElem?]
+  cases hx : a[n]? with
+  | none => show (0 : K) ≤ 1; exact zero_le_one
+  | some x =>
+    have : x ∈ a := Array.mem_of_getElem? hx
+    exact h x (Array.mem_toList_iff.mpr this)
+
+theorem get_of_lookup {α : Type} [Scalar α] (cv : CliqueVec α) (c : Clique) (f : Factor α)
+    (h : cv.lookup c = some f) : cv.get c = f := by
+  unfold CliqueVec.get; rw [h]
+
+theorem lookup_of_nodup_keys {α : Type} (cv : CliqueVec α) (hnd : (cv.map Prod.fst).Nodup)
+    (p : Clique × Factor α) (hp : p ∈ cv) : cv.lookup p.1 = some p.2 := by
+  induction cv with
+  | nil => simp at hp
+  | cons q qs ih =>
+    obtain ⟨k, v⟩ := q
+    simp only [List.map_cons, List.nodup_cons] at hnd
+    simp only [List.lookup_cons]
+    rcases List.mem_cons.mp hp with h | h
+    · subst h; simp
+    · have hne : p.1 ≠ k := by
+        intro e
+        apply hnd.1
+        rw [← e]; exact List.mem_map_of_mem h
+      have : (p.1 == k) = false := by simpa using hne
+      rw [this]
+      exact ih hnd.2 h
+
+theorem isTree_of_check {attrs : List Attr} {cl : List Clique} {t : Tree}
+    {order : List (Clique × Clique)} (h : checkJT attrs cl t order = true) : isTree t = true := by
+  simp only [checkJT, Bool.and_eq_true] at h
+  exact h.1.1.1.2
+
+theorem psi_depOn (pots : CliqueVec (LogOf K)) (c : Clique)
+    (hp : (pots.get c).dom.attrs.Perm c) : DepOn (psi pots c) (fun a => a ∈ c) := by
+  intro σ σ' h
+  unfold psi Factor.sem
+  congr 2
+  apply List.map_congr_left
+  intro a ha
+  exact h a (hp.mem_iff.mp ha)
+
+theorem mok_of_modelOK (d : Dom) (cliques : List Clique) (t : Tree) (order : List (Clique × Clique))
+    (pots : CliqueVec (LogOf K)) (hok : ModelOK d cliques t order pots) : MOK d t order pots := by
+  have hit := isTree_of_check hok.jt
+  have valid := checkJT_sound d.attrs [] t order hok.jt
+  have tok := treeOK_of_isTree t hit
+  have tf := treeFacts t hit
+  have hkeys : pots.map Prod.fst = t.nodes := hok.keys.trans hok.nodes.symm
+  have hpot : ∀ c ∈ t.nodes, (pots.get c).WF ∧ (pots.get c).dom.attrs.Perm c ∧
+      (pots.get c).dom.Agrees d ∧ ∀ x ∈ (pots.get c).vals.data.toList, 0 ≤ x.v := by
+    intro c hc
+    obtain ⟨f, hf, hmem⟩ := lookup_isSome_of_mem pots c (by rw [hkeys]; exact hc)
+    rw [get_of_lookup pots c f hf]
+    have := hok.pot_ok _ hmem
+    exact ⟨this.1, this.2.1, this.2.2, hok.nonneg _ hmem⟩
+  refine ⟨⟨tok, hok.dom_wf, ?_, valid.covers_domain, valid.rip, ?_, ?_⟩,
+    schedOK_of_valid d.attrs [] t order tf valid, hkeys,
+    fun c hc => ⟨(hpot c hc).1, (hpot c hc).2.1, (hpot c hc).2.2.1⟩⟩
+  · intro c hc
+    exact (hok.clique_ok c (by rw [← hok.nodes]; exact hc)).2
+  · intro c hc
+    exact psi_depOn pots c (hpot c hc).2.1
+  · intro c hc τ
+    exact getD_nonneg _ (hpot c hc).2.2.2 _
+
+theorem joint_eq_F (d : Dom) (cliques : List Clique) (t : Tree) (order : List (Clique × Clique))
+    (pots : CliqueVec (LogOf K)) (hok : ModelOK d cliques t order pots) :
+    joint pots = F (psi pots) t.nodes := by
+  have hit := isTree_of_check hok.jt
+  have tf := treeFacts t hit
+  have hkeys : pots.map Prod.fst = t.nodes := hok.keys.trans hok.nodes.symm
+  funext τ
+  unfold joint F
+  rw [← hkeys, List.map_map]
+  congr 1
+  apply List.map_congr_left
+  intro p hp
+  have := lookup_of_nodup_keys pots (by rw [hkeys]; exact tf.nodes_nodup) p hp
+  simp only [Function.comp, psi]
+  rw [get_of_lookup pots p.1 p.2 this]
+
+theorem invert_nodup (d : Dom) (hd : d.WF) (as : List Attr) : (d.invert as).Nodup :=
+  List.Nodup.filter _ hd
+
+theorem mem_invert (d : Dom) (as : List Attr) (a : Attr) : a ∈ d.invert as ↔ a ∈ d.attrs ∧ a ∉ as := by
+  simp [Dom.invert]
+
+theorem marginal_eq (d : Dom) (cliques : List Clique) (t : Tree) (order : List (Clique × Clique))
+    (pots : CliqueVec (LogOf K)) (hok : ModelOK d cliques t order pots) (c : Clique)
+    (τ : Attr → Nat) :
+    marginal d pots c τ = nsum d (d.invert c) τ (F (psi pots) t.nodes) := by
+  unfold marginal
+  rw [sumOver_eq_nsum d _ (invert_nodup d hok.dom_wf c), joint_eq_F d cliques t order pots hok]
+
+theorem head_mem (d : Dom) (cliques : List Clique) (t : Tree) (order : List (Clique × Clique))
+    (pots : CliqueVec (LogOf K)) (hok : ModelOK d cliques t order pots) :
+    cliques.headD [] ∈ t.nodes := by
+  have tf := treeFacts t (isTree_of_check hok.jt)
+  rw [hok.nodes]
+  have hne : cliques ≠ [] := by rw [← hok.nodes]; exact tf.nodes_ne
+  cases cliques with
+  | nil => exact absurd rfl hne
+  | cons c cs => simp
+
+theorem lookup_map_self {β : Type} (l : List Clique) (g : Clique → β) (c : Clique) (hc : c ∈ l) :
+    (l.map (fun x => (x, g x))).lookup c = some (g c) := by
+  induction l with
+  | nil => simp at hc
+  | cons x xs ih =>
+    simp only [List.map_cons, List.lookup_cons]
+    by_cases h : c = x
+    · subst h; simp
+    · have : (c == x) = false := by simpa using h
+      rw [this]
+      rcases List.mem_cons.mp hc with h' | h'
+      · exact absurd h' h
+      · exact ih h'
+
+/-- the final rescaling `exp(belief + log total − logZ)` -/
+theorem out_sem (b : Factor (LogOf K)) (shift : LogOf K) (σ : Attr → Nat) (hb : b.WF)
+    (hσ : b.dom.Valid σ) :
+    ((b.iaddScalar shift).exp).dom = b.dom ∧
+    (((b.iaddScalar shift).exp).sem σ).v = (b.sem σ).v * shift.v := by
+  refine ⟨rfl, ?_⟩
+  have hin := Factor.inRange_of_valid b.dom hb.1 σ hσ
+  have e1 : ((b.iaddScalar shift).exp).vals
+      = ((b.vals.map (fun v => Scalar.add v shift)).map Scalar.exp).reshape b.dom.shape := rfl
+  have e2 : ((b.iaddScalar shift).exp).dom = b.dom := rfl
+  unfold Factor.sem
+  rw [e1, e2, Factor.get_reshape_of_shape_eq _ _ (by show b.vals.shape = _; exact hb.2.1),
+    NdArr.get_map _ _ _ (NdArr.map_WF _ _ hb.2.2) (by show InRange b.vals.shape _; rw [hb.2.1]; exact hin),
+    NdArr.get_map _ _ _ hb.2.2 (by rw [hb.2.1]; exact hin)]
+  rfl
 
 /-- the log-partition value computed from the first clique's belief is the partition function -/
 theorem logZ_correct (d : Dom) (cliques : List Clique) (t : Tree) (order : List (Clique × Clique))
     (pots : CliqueVec (LogOf K)) (hok : ModelOK d cliques t order pots) :
     (logZ cliques order pots).v = partition d pots := by
-  sorry
+  have mk := mok_of_modelOK d cliques t order pots hok
+  have hc0 := head_mem d cliques t order pots hok
+  obtain ⟨hbw, hbd, hbs⟩ := final_belief mk _ hc0
+  obtain ⟨hpw, hpp, hpa⟩ := mk.pot _ hc0
+  have hsub := mk.cx.node_sub _ hc0
+  have hlz : logZ cliques order pots
+      = ((bpLoop order pots).1.get (cliques.headD [])).logsumexpAll := rfl
+  rw [hlz, logsumexpAll_v d _ (fun _ => 0) hbw (by rw [hbd]; exact hpa), hbd]
+  have h1 : nsum d (pots.get (cliques.headD [])).dom.attrs (fun _ => 0)
+        (fun τ => (((bpLoop order pots).1.get (cliques.headD [])).sem τ).v)
+      = nsum d (pots.get (cliques.headD [])).dom.attrs (fun _ => 0)
+        (fun τ => nsum d (d.invert (cliques.headD [])) τ (F (psi pots) t.nodes)) := by
+    apply nsum_congr_fun
+    intro τ _ h2
+    apply hbs
+    rw [Dom.valid_iff _ hpw.1]
+    intro a ha
+    rw [← agrees_cfg hpw.1 hpa ha]; exact h2 a ha
+  have hperm : ((pots.get (cliques.headD [])).dom.attrs ++ d.invert (cliques.headD [])).Perm d.attrs := by
+    rw [List.perm_ext_iff_of_nodup _ hok.dom_wf]
+    · intro a
+      rw [List.mem_append, mem_invert, hpp.mem_iff]
+      constructor
+      · rintro (h | h)
+        · exact hsub a h
+        · exact h.1
+      · intro h
+        by_cases hac : a ∈ cliques.headD []
+        · exact Or.inl hac
+        · exact Or.inr ⟨h, hac⟩
+    · rw [List.nodup_append]
+      refine ⟨hpw.1, invert_nodup d hok.dom_wf _, ?_⟩
+      intro a ha b hb hab
+      subst hab
+      exact ((mem_invert _ _ _).mp hb).2 (hpp.mem_iff.mp ha)
+  rw [h1, ← nsum_append, nsum_perm d _ d.attrs hperm]
+  unfold partition
+  rw [sumOver_eq_nsum d _ hok.dom_wf, joint_eq_F d cliques t order pots hok]
 
 /-- **exact inference is exact**: every returned clique table is `total · marginal / Z`, laid out
 over the attributes of that clique's potential -/
@@ -18,6 +198,31 @@ theorem bp_marginals (d : Dom) (cliques : List Clique) (t : Tree) (order : List 
     ((beliefPropagation cliques order pots total).get c).dom.attrs = (pots.get c).dom.attrs ∧
     (((beliefPropagation cliques order pots total).get c).sem σ).v
       = total.v * marginal d pots c σ / partition d pots := by
-  sorry
+  have mk := mok_of_modelOK d cliques t order pots hok
+  have hcn : c ∈ t.nodes := by rw [hok.nodes]; exact hc
+  obtain ⟨hbw, hbd, hbs⟩ := final_belief mk c hcn
+  obtain ⟨hpw, hpp, hpa⟩ := mk.pot c hcn
+  have hget : (beliefPropagation cliques order pots total).get c
+      = (((bpLoop order pots).1.get c).iaddScalar
+          (Scalar.sub (Scalar.log total) (logZ cliques order pots))).exp := by
+    unfold beliefPropagation CliqueVec.get
+    dsimp only
+    rw [lookup_map_self cliques _ c hc]
+    rfl
+  have hσc : (pots.get c).dom.Valid σ := by
+    rw [Dom.valid_iff _ hpw.1]
+    intro a ha
+    rw [← agrees_cfg hpw.1 hpa ha]
+    exact (Dom.valid_iff d hok.dom_wf σ).mp hσ a (mk.cx.node_sub c hcn a (hpp.mem_iff.mp ha))
+  obtain ⟨ho1, ho2⟩ := out_sem ((bpLoop order pots).1.get c)
+    (Scalar.sub (Scalar.log total) (logZ cliques order pots)) σ hbw (by rw [hbd]; exact hσc)
+  rw [hget]
+  refine ⟨by rw [ho1, hbd], ?_⟩
+  rw [ho2, hbs σ hσc, ← marginal_eq d cliques t order pots hok c σ]
+  have hs : (Scalar.sub (Scalar.log total) (logZ cliques order pots)).v
+      = total.v * ((logZ cliques order pots).v)⁻¹ := rfl
+  rw [hs, logZ_correct d cliques t order pots hok]
+  rw [div_eq_mul_inv]
+  ring
 
 end PGM.Sem
